@@ -26,6 +26,7 @@ type c17Inst struct {
 	RHS    string
 	Parts  []string
 	Guard  string
+	Deep   bool // evaluated on the deep documents
 }
 
 var c17Sources = []string{"a", "b", "@", "a.b", "a[0]", "a.a", "[0]", "(a[*])", "(a[])", "(*)", "(a[?a])", "(a.*)", "[a,b]", "{k:a}.k",
@@ -34,6 +35,18 @@ var c17Proj = []string{"[*]", "[]", "[?a]", "[?@]", "[1:]", "[::-1]", ".*", "[0:
 var c17Steps = []string{".a", ".b", "[0]", "[-1]", "[*]", ".*", "[?a]", "[1:]", ".[a]", ".[a,b]", ".{k:a}", ".k"}
 var c17Dotables = []string{"a", "b", "a.b", "a[0]", "[a]", "[a,b]", "{k:a}", `"a"`, "type(@)", "to_array(@)", "a[*]", "*", "a.*", "[a][0]", "b.type(@)", "a.to_array(@)", "b.not_null(@, 'd')", "[@]", "{v: @}", "a.[@]"}
 var c17Exprs = []string{"a", "b", "@", "a.b", "a[0]", "a[*]", "a.*", "`1`", "`null`", "'s'", "a || b", "a[?a]", "[a]", "length(@)", "$"}
+
+// documents nested five and six levels deep, arrays and objects alternating in different ways, with nulls on the way
+var c17DeepDocs = []string{
+	`{"a":[[{"p":{"b":{"c":1},"a":{"a":{"a":1}}}}],[{"q":{"b":{"c":2}},"a":{"b":{"a":[7]}}}],[{"r":{"c":3}}],[]]}`,
+	`{"a":[{"a":{"a":{"a":{"a":1},"b":[{"a":2}]},"b":{"a":{"b":3}}},"b":[[{"a":{"b":4}}]]},null,{"a":null},{"a":{"a":null}}]}`,
+	`[[{"a":{"a":{"b":{"a":1}},"b":{"b":{"b":2}}},"b":{"a":{"a":{"a":3}}}}],[[{"a":{"a":{"a":4}}}]],null,[null]]`,
+	`{"a":{"x":[{"a":{"b":[{"a":1},{"b":2}]}}],"y":[{"b":{"a":[[3]]}}],"z":null},"b":[[[[[5]]]]]}`,
+	`{"a":[[[[[[1,null]]]]],[[{"a":[{"a":[{"b":1}]}]}]]]}`,
+	`{"a":[{"a":[{"a":[{"a":[{"a":1,"b":2}],"b":{"a":{"a":3}}}],"b":[{"a":{"b":{"a":4}}}]}]},{"b":{"a":{"b":{"a":{"b":5}}}}}]}`,
+	`{"a":[{"b":{"a":{"b":{"a":1}},"b":{"b":{"b":2}}}},{"b":{"a":{"b":null}}},{"a":{"b":{"a":{"b":[6]}}}}],"b":{"a":{"b":{"a":{"b":7}}}}}`,
+	`[{"a":{"a":{"a":{"a":{"a":1}}}}},[{"b":{"b":{"b":{"b":2}}}}],{"a":[{"a":[{"a":[{"a":3}]}]}]}]`,
+}
 
 func c17Chains(maxLen int) []string {
 	var out []string
@@ -149,6 +162,35 @@ func c17Instances(thorough bool) []c17Inst {
 			out = append(out, c17Inst{Big: true, Schema: "index-in-projection", Kind: "eq", LHS: "wide[*][" + i + "]", RHS: "wide[*] | [*][" + i + "]"})
 			out = append(out, c17Inst{Big: true, Schema: "index-in-map", Kind: "prune", LHS: "wide[*][" + i + "]", RHS: "map(&@[" + i + "], wide)"})
 			out = append(out, c17Inst{Big: true, Schema: "index-in-multiselect", Kind: "concat", LHS: "[" + closed + "[" + i + "], " + x + " | [" + i + "]]", Parts: []string{"[" + closed + "[" + i + "]]", "[" + x + " | [" + i + "]]"}, Guard: "@"})
+		}
+	}
+	// deep chains: four and five selector steps after a projection, on documents nested deeply enough to answer them
+	var deepChains []string
+	var recDeep func(prefix string, n int)
+	recDeep = func(prefix string, n int) {
+		if n >= 3 {
+			deepChains = append(deepChains, prefix)
+		}
+		if n == 5 {
+			return
+		}
+		for _, st := range []string{".a", ".b", "[0]", ".*"} {
+			recDeep(prefix+st, n+1)
+		}
+	}
+	recDeep("", 0)
+	for _, x := range []string{"a", "@", "a[0]", "[a][0]"} {
+		for _, t := range []string{"[*]", "[]", ".*", "[?@]"} {
+			for _, ch := range deepChains {
+				out = append(out, c17Inst{Deep: true, Schema: "proj-then-selectors", Kind: "eq", LHS: x + t + ch, RHS: x + t + " | [*]" + ch})
+				// ... and the chain may be cut anywhere: the first k steps, piped into a wildcard with the rest
+				for cut := 1; cut < len(ch); cut++ {
+					// (only before the chain starts a projection of its own: after that the remaining steps belong to the inner one)
+					if (ch[cut] == '.' || ch[cut] == '[') && !strings.Contains(ch[:cut], "*") {
+						out = append(out, c17Inst{Deep: true, Schema: "proj-chain-cut", Kind: "eq", LHS: x + t + ch, RHS: x + t + ch[:cut] + " | [*]" + ch[cut:]})
+					}
+				}
+			}
 		}
 	}
 	// dedupe
@@ -300,6 +342,10 @@ func c17Run(r *core.Run) {
 		return "[" + strings.Join(parts, ",") + "]"
 	}
 	bigDocs := []doc{mkDoc(`{"big":` + seq(300) + `,"wide":[` + seq(300) + `,` + seq(130) + `]}`), mkDoc(`{"big":` + seq(256) + `,"wide":[` + seq(129) + `,` + seq(128) + `]}`), mkDoc(`{"big":[1],"wide":[[1],null]}`)}
+	var deepDocs []doc
+	for _, t := range c17DeepDocs {
+		deepDocs = append(deepDocs, mkDoc(t))
+	}
 	r.Bound("identity_instances", len(insts))
 	r.Bound("documents", len(docs))
 	r.Bound("sources", len(c17Sources))
@@ -316,6 +362,9 @@ func c17Run(r *core.Run) {
 		ds := docs
 		if inst.Big {
 			ds = bigDocs
+		}
+		if inst.Deep {
+			ds = deepDocs
 		}
 		for di, d := range ds {
 			r.Begin(map[string]any{"lhs": inst.LHS, "rhs": inst.RHS, "doc": d.Text})
